@@ -39,6 +39,7 @@ type StructInfo struct {
 	FSorts []string
 	T      *types.Struct
 	Named  string
+	GoType types.Type
 }
 
 type Universe struct {
@@ -51,6 +52,8 @@ type Universe struct {
 	strOrder  []string
 	fnIDs     map[string]int
 	heapSorts map[string]bool
+	isLibType func(types.Type) bool
+	libIDs    []int
 }
 
 func newUniverse(db *DB) *Universe {
@@ -165,7 +168,7 @@ func (u *Universe) structInfo(t types.Type, bv bool) *StructInfo {
 		}
 		name += "x"
 	}
-	si := &StructInfo{Sort: name, Ctor: "mk_" + name, T: st, Named: shortTypeName(t)}
+	si := &StructInfo{Sort: name, Ctor: "mk_" + name, T: st, Named: shortTypeName(t), GoType: t}
 	u.structOf[key] = si
 	u.structs[name] = si
 	for i := 0; i < st.NumFields(); i++ {
@@ -184,6 +187,9 @@ func (u *Universe) typeID(t types.Type) int {
 	}
 	id := len(u.typeIDs) + 1
 	u.typeIDs[k] = id
+	if u.isLibType != nil && u.isLibType(t) {
+		u.libIDs = append(u.libIDs, id)
+	}
 	return id
 }
 
@@ -294,6 +300,12 @@ func (u *Universe) prelude(heaps []string, db *DB, usedSpec map[string]bool) str
 	}
 	b.WriteString("(declare-fun f32bits ((_ FloatingPoint 8 24)) Int)\n(declare-fun f64bits ((_ FloatingPoint 11 53)) Int)\n")
 	b.WriteString("(declare-fun box_any (Int Int) Int)\n")
+	// closed world: the dynamic types declared in the library are exactly these
+	lib := []string{"false"}
+	for _, id := range u.libIDs {
+		lib = append(lib, fmt.Sprintf("(= x %d)", id))
+	}
+	fmt.Fprintf(&b, "(define-fun lib_type ((x Int)) Bool (or %s))\n", strings.Join(lib, " "))
 	b.WriteString("(define-fun pow2 ((x Int)) Int (ite (= x 0) 1 (ite (= x 1) 2 (ite (= x 2) 4 (ite (= x 3) 8 (ite (= x 4) 16 (ite (= x 5) 32 (ite (= x 6) 64 (ite (= x 7) 128 (ite (= x 8) 256 0))))))))))\n")
 	names := make([]string, 0, len(db.SpecFns))
 	for n := range db.SpecFns {
